@@ -30,7 +30,17 @@ type Params struct {
 	// is inside its call and stays there until the environment event "finish", the others are registered waiters); the
 	// environment events then race freely. A sharp driver for hand-over collisions that need several registered waiters.
 	Staged bool `json:"staged,omitempty"`
+	// UseErr: how a use of a connection may end other than with the answer (the environment's side of Invoke):
+	//   ""      the call returns nil, whatever the caller's context (the answer had already arrived);
+	//   "ctx"   the connection honours the caller's context: a use whose caller gave up before the use ended returns ctx.Err()
+	//           (request abandoned in flight) - the connection itself stays healthy;
+	//   "app:n" the n-th use overall (in order of use-begin, over all connections) fails with a non-retryable application error -
+	//           the connection stays healthy.
+	UseErr string `json:"use_err,omitempty"`
 }
+
+// errApp is a non-retryable (not connection-related) request failure.
+var errApp = errors.New("rpc error code 400: VERIF_APPLICATION_ERROR")
 
 type conn struct {
 	n       int // creation index, 1-based
@@ -50,6 +60,8 @@ type world struct {
 	p      Params
 	hold   bool // the first use of a connection stays in progress until released
 	inUse1 bool
+	uses   int // uses begun so far (over all connections)
+	failAt int // UseErr "app:n": n, else 0
 }
 
 func ctxDone(ctx context.Context) bool {
@@ -96,6 +108,8 @@ func (c *conn) Invoke(ctx context.Context, in bin.Encoder, out bin.Decoder) erro
 		return rpc.ErrEngineClosed
 	}
 	c.inUse = who
+	c.w.uses++
+	useNo := c.w.uses
 	c.o.Log("use-begin c%d by %s step=%d", c.n, who, vsched.Step())
 	if c.w.p.Staged && !c.w.inUse1 {
 		c.w.inUse1 = true
@@ -104,6 +118,14 @@ func (c *conn) Invoke(ctx context.Context, in bin.Encoder, out bin.Decoder) erro
 	vsched.Point("in-use")
 	c.inUse = ""
 	c.o.Log("use-end c%d by %s step=%d", c.n, who, vsched.Step())
+	switch {
+	case c.w.p.UseErr == "ctx" && ctxDone(ctx):
+		c.o.Log("use-fail c%d by %s kind=ctx", c.n, who)
+		return ctx.Err()
+	case c.w.failAt > 0 && useNo == c.w.failAt:
+		c.o.Log("use-fail c%d by %s kind=app", c.n, who)
+		return errApp
+	}
 	// a connection that died during the call: the answer had already arrived
 	return nil
 }
@@ -116,6 +138,9 @@ func (nop) Decode(*bin.Buffer) error { return nil }
 // Body is the scenario driver.
 func Body(p Params, o *sx.Obs, dump func(dc *pool.DC) (total int64, free []pool.Conn, waiters int)) {
 	w := &world{o: o, p: p, hold: p.Staged}
+	if strings.HasPrefix(p.UseErr, "app:") {
+		fmt.Sscanf(p.UseErr, "app:%d", &w.failAt)
+	}
 	root, stop := vctx.WithCancel(vctx.Background())
 	defer stop()
 	dc := pool.NewDC(root, 2, func() pool.Conn {
@@ -395,7 +420,7 @@ func outcome(o *sx.Obs) string {
 	var parts []string
 	for _, e := range o.Events {
 		switch {
-		case strings.HasPrefix(e, "create "), strings.HasPrefix(e, "call-end"), strings.HasPrefix(e, "kill"), strings.HasPrefix(e, "quiescent"), strings.HasPrefix(e, "probe-end"), strings.HasPrefix(e, "use-dead"):
+		case strings.HasPrefix(e, "create "), strings.HasPrefix(e, "call-end"), strings.HasPrefix(e, "kill"), strings.HasPrefix(e, "quiescent"), strings.HasPrefix(e, "probe-end"), strings.HasPrefix(e, "use-dead"), strings.HasPrefix(e, "use-fail"):
 			f := strings.Fields(e)
 			if len(f) > 3 && strings.HasPrefix(f[len(f)-1], "step=") {
 				f = f[:len(f)-1]
